@@ -172,10 +172,19 @@ PROPS = {
                       "previous user's bytes, for every chunking), over the session model lifted to schedules.",
     },
     "C13": {
-        "jobs": [sess_job(140, 2500, keep_ops=[], held=True, leak=True)],
-        "rule": SESS_RULE, "assumptions": SESS_ASSUME,
+        "jobs": [sess_job(140, 2500, keep_ops=[], held=True, leak=True),
+                 {"cmd": "faults", "quick": 60, "thorough": 4000, "timeout": 6000}],
+        "rule": SESS_RULE + "; job faults: six scenarios (plain file, directory enumeration with both entry commands and the bulk listing, generated image with "
+                "lazily opened member files, redump image with key lookup, 3k3y image, upload/mkdir/rmdir/delete) each run once without faults, then with one "
+                "control operation of the filesystem double (open, openfile, stat, fstat, seek, readat, readdirnames, mkdir, remove ...) failing with EIO - every "
+                "index in turn in the thorough tier, a stride in the quick tier -, with every Read returning at most 1/7/512/2047 bytes, with the served file "
+                "unreadable from offsets 0/1/999/4096/20000, and with the connection ended by EOF, an unknown opcode, a truncated request or a reset at every "
+                "request boundary; after each run: no open handle, connection goroutine ended, every answer = reference answer | failure code | correct prefix + "
+                "disconnection (listings and directory sizes may omit what could not be examined, never invent or alter an entry)",
+        "assumptions": SESS_ASSUME + ["a short count is legal for Read only: os.File.ReadAt retries, so the double never shortens a positional read"],
         "partial": ["goroutine termination, kernel descriptor accounting and hangs are runtime behaviour: watched by the harness (disconnect signal, "
-                    "handle ledger of the filesystem double), not part of the theorem"],
+                    "handle ledger of the filesystem double), not part of the theorem",
+                    "filesystem faults have no counterpart in the session model: the fault half of the property is decided by the faults job only"],
         "level_text": "Theorems C13_owned (ledger invariant preserved by every handler on every exit path) and C13_released (for every input stream and "
                       "world, every handle opened for the connection is closed when it ends), over the session model with explicit open/close counters.",
     },
@@ -245,23 +254,29 @@ TOOLS_SMALL = {"cmd": "tools", "quick": 12, "thorough": 200, "binary": True, "ti
 PROPS["C07"] = {
     "jobs": [iso_job(120, 3000), TOOLS_SMALL],
     "rule": ISO_RULE, "assumptions": ISO_ASSUME,
-    "partial": ["the theorems stop at the record level: that an independent reader walking the bytes from the root record reaches every directory "
-                "(child links, '..' links) is decided by the harness's own ECMA-119/Joliet reader on every generated image, not by a theorem",
+    "partial": ["C07_directory_decodes shows a Gallina reader recovering the records of every directory extent and C08_links where every extent is; that "
+                "a parent's record for a sub-directory points at that sub-directory (so that a walk from the root reaches everything) is decided by the "
+                "harness's own ECMA-119/Joliet reader on every generated image, not by a theorem",
                 "the network and make-iso routes are covered by the C20 job (tool output = served view) and the session jobs (served view = library view)"],
     "level_text": "Theorems C07_layout (files tile the file area: the precondition of C09), C07_file_bytes (every file's bytes at the location its "
                   "records give), C07_file_records (both hierarchies: each directory's records are '.', '..', its files verbatim, its sub-directories; "
-                  "multi-extent splitting tiles the file exactly), C07_served_bytes, C07_names over the byte-exact model of buildFS; the model's metadata "
+                  "multi-extent splitting tiles the file exactly), C07_directory_decodes / C07_built_directories_decode (an independent record-by-record "
+                  "reader of the extent bytes returns exactly those records), C07_served_bytes, C07_names over the byte-exact model of buildFS; the model's metadata "
                   "area is compared with the real one by hash for every generated tree and an independent reader decodes both hierarchies.",
     "technique": "Coq proof over a byte-exact model of the image builder + differential (hash of metadata area, file table) + independent ISO reader",
 }
+SFO_JOB = {"cmd": "sfo", "quick": 600, "thorough": 30000, "timeout": 3000}
+
 PROPS["C08"] = {
-    "jobs": [iso_job(120, 3000), TOOLS_SMALL],
+    "jobs": [iso_job(120, 3000), TOOLS_SMALL, SFO_JOB],
     "rule": ISO_RULE, "assumptions": ISO_ASSUME,
-    "partial": ["'..'/child-link consistency, path-table parent numbering, non-overlap of directory extents and the supplementary descriptor's fields "
-                "are checked by the strict validator (anchored on internal/testutil/testdata/testimg.iso) and by the byte-exact differential, not by theorems",
-                "PARAM.SFO parsing (sfoField) is exercised with generated files (any key order / count) but not modelled"],
+    "partial": ["child-record links (a parent's record for a sub-directory pointing at that sub-directory), path-table parent numbering, non-overlap of "
+                "directory extents and the supplementary descriptor's fields are checked by the strict validator (anchored on internal/testutil/testdata/testimg.iso) and by the byte-exact differential, not by theorems",
+                "job sfo: sfoField against Model/Sfo on 26 crafted files, generated well-formed files and mutations of them (bit flips, truncations, extreme header words)"],
     "level_text": "Theorems C08_sizes, C08_volume_space, C08_record_length, C08_records (no record straddles a sector, every record fits its length "
-                  "byte, for every tree), C08_path_tables (L/M encode one list), C08_ps3_sectors over the byte-exact model of buildFS.",
+                  "byte, for every tree), C08_links ('.' = the directory's own extent and length, '..' = the parent's, parents listed first, both "
+                  "hierarchies), C08_path_tables (L/M encode one list), C08_ps3_sectors, C08_sfo_field (every well-formed PARAM.SFO, any number and order of "
+                  "entries, yields the value of the requested key) over the byte-exact models of buildFS and sfoField.",
     "technique": "Coq proof over a byte-exact model of the image builder + differential + strict ECMA-119/Joliet validator",
 }
 PROPS["C18"] = {
@@ -301,7 +316,8 @@ PROPS["C04"] = {
              iso_job(40, 1200),
              {"cmd": "viso", "quick": 10, "thorough": 600, "timeout": 3000},
              {"cmd": "enc", "quick": 30, "thorough": 1500, "timeout": 3000},
-             {"cmd": "tools", "quick": 12, "thorough": 300, "binary": True, "timeout": 6000}],
+             {"cmd": "tools", "quick": 12, "thorough": 300, "binary": True, "timeout": 6000},
+             SFO_JOB],
     "rule": "job crash: the real binary (under an 8 GB address-space limit) serves a root of crafted content - 26 PARAM.SFO variants (truncated, bad magic, counts and "
             "offsets up to 2^32-1, TITLE_ID lengths 0,1,3,4,31,32,33,200, non-ASCII), 19 region-table variants (sizes 0..2047, counts 0,1,256,300,2^31,2^32-1, "
             "reversed/overlapping/beyond-EOF regions, partial tail) each with one of 8 key-file variants and as 3k3y twins, 3k3y areas cut at 9 lengths, keys and "
@@ -315,7 +331,7 @@ PROPS["C04"] = {
     "partial": ["Go panics have no counterpart in the total Coq models: the theorems show that the modelled guards make the panicking operations unreachable in the "
                 "byte-exact models (encoder widths, region count, window slicing, stream consumption); nil dereferences, slice bounds outside the modelled "
                 "arithmetic and the runtime itself are covered by the crash job only",
-                "sfoField (PARAM.SFO parsing) is not modelled: exercised with 26 crafted variants against the real server and make-iso"],
+                "sfoField is modelled (Model/Sfo, total, no allocation from declared counts) and compared with the code on crafted and mutated files (job sfo)"],
     "level_text": "Theorems C04_any_stream (every byte stream is handled to its end in length/16+1 steps), C04_malformed, C04_image_reads, C04_encrypted_reads (all offsets "
                   "and lengths stay inside the buffers), C04_builder_errors, C04_builder_fields (every fixed-width encoder receives a value that fits, every tree and "
                   "name), C04_region_table (count-driven allocation bounded), plus the crash job against the real binary.",
